@@ -112,10 +112,19 @@ fn random_chain(src: &mut Src) -> Vec<Place> {
     (0..depth)
         .map(|_| Place {
             o: Orient::from_index(src.index(8)),
-            loc: match src.weighted(&[3, 3, 2]) {
+            loc: match src.weighted(&[6, 6, 4, 1]) {
                 0 => *src.pick(OFFSETS),
                 1 => (src.signed(1000), src.signed(1000)),
-                _ => (src.signed(1 << 30), src.signed(1 << 30)),
+                2 => (src.signed(1 << 30), src.signed(1 << 30)),
+                // coordinates are machine integers: nothing ends at 32 bits
+                _ => {
+                    let far = |src: &mut Src| *src.pick(&[i32::MAX as i64, i32::MIN as i64, 1i64 << 31, -(1i64 << 31) - 1, (1i64 << 32) + 5, -(1i64 << 40), 1i64 << 45]) + src.signed(3);
+                    match src.below(3) {
+                        0 => (far(src), src.signed(1000)),
+                        1 => (src.signed(1000), far(src)),
+                        _ => (far(src), far(src)),
+                    }
+                }
             },
             none_angle: src.bool(),
         })
